@@ -406,7 +406,9 @@ class G:
         if k == 'grams':
             return self.grams()
         if k == 'varu':
-            nb = r.randrange(ty[1])
+            # byte lengths are cycled, not drawn: every length 0..n-1 of VarUInteger n occurs (the top one, n-1, included) however few values are generated
+            self.varu_i = getattr(self, 'varu_i', 0) + 1
+            nb = self.varu_i % ty[1] if not self.small else r.randrange(min(ty[1], 3))
             return 0 if nb == 0 else r.choice([(1 << (8 * nb)) - 1, 1 << (8 * nb - 1), (1 << (8 * nb - 8)), r.getrandbits(8 * nb) | (1 << (8 * nb - 8))])
         if k == 'cc':
             return self.cc()
